@@ -207,6 +207,9 @@ func c04Run(c c04Case, x *vh.Ctx, contain bool) *vh.Failure {
 		}
 	}
 	ok2 := false
+	if tg.desc == nil {
+		x.Exclude(findingDescriptorRecursive) // descriptor half skipped for recursive types (open finding F10)
+	}
 	if tg.desc != nil {
 		var out plenccodec.JSONOutput
 		a0 = allocBytes()
